@@ -11,7 +11,7 @@ EXPLANATION = (
     'guarded by a look at what lives there; (R3) in the BothChanged arm the overwrite of the loser is guarded by the Ok edges of two copies of the '
     'loser, one per root; (R4) side consistency of winner/loser tuples, DeleteVsModify and Propagate arms; (R5) the map stored as the next archive '
     'derives from the loaded archive only through a filter over the two live scans; (R6) the decision table (C18): deletes need same(survivor, base); (R7) every non-dry-run Ok return of run_bisync passes Archive::save (the place where entries of paths gone from both sides are dropped); (R8) the collection the apply loop walks is the value reconcile() returned - re-ordering is accepted, retain/filter/drain between decision and apply is not. '
-    '(R9) every value of the two scans that reconcile compares is fingerprint_path(<walked file>) - never a remembered fingerprint - and whether a walked file is recorded does not depend on a file time. Not decided: the no-loss statement over histories (follows from R1-R6 + C18 by the paper argument in DESIGN §7 C02); TOCTOU between scan and apply.')
+    '(R9) every value of the two scans that reconcile compares is fingerprint_path(<walked file>) - never a remembered fingerprint - and whether a walked file is recorded does not depend on a file time. R3 also: the copies that preserve the loser may be skipped only under a test that asks both of this run\'s scans about the copy\'s name (data and control dependence of the tested value); a skip decided from the archive alone is reported, one that consults both scans is not decided. Deliveries staged into a container and published in a loop over it are not decided by the per-call rules. Not decided: the no-loss statement over histories (follows from R1-R6 + C18 by the paper argument in DESIGN §7 C02); TOCTOU between scan and apply.')
 ASSUMPTIONS = ['std::fs::copy/rename semantics', 'BTreeMap API semantics (get/contains_key/insert/remove/retain)']
 
 REMOVERS = {'std::fs::remove_file', 'std::fs::remove_dir', 'std::fs::remove_dir_all', 'tokio::fs::remove_file', 'tokio::fs::remove_dir_all'}
